@@ -465,6 +465,16 @@ func maybeNilError(ret *ssa.Return) bool {
 	if isNilConst(v) {
 		return true
 	}
+	// the returned error is known non-nil: the block is control dependent on `v != nil` being true
+	for _, d := range cdChain(controlDeps(ret.Parent()), ret.Block()) {
+		if iff := blockIf(d.b); iff != nil {
+			if bo, ok := iff.Cond.(*ssa.BinOp); ok && isNilConst(bo.Y) && bo.X == v {
+				if (bo.Op == token.NEQ && d.succ == 0) || (bo.Op == token.EQL && d.succ == 1) {
+					return false
+				}
+			}
+		}
+	}
 	// `return err` directly after `if err != nil`
 	b := ret.Block()
 	if len(b.Preds) == 1 {
